@@ -109,11 +109,56 @@ class Heap:
                 continue
             for t in self.ann_targets(fi.annotation, c.module):
                 self.add(c.qual, t, f".{n}: {fi.ann_text[:50]}")
+        # a cached_property keeps what it returned in the instance for the instance's lifetime: a field of the return type, and of
+        # whatever the body returns when that is visibly a user object (x.instance / getattr(x.instance, ...), not wrapped again)
+        for n, m in c.methods.items():
+            if not m.is_cached_property:
+                continue
+            for t in self.ann_targets(m.node.returns, c.module):
+                self.add(c.qual, t, f".{n} (cached_property) -> {src(m.node.returns)[:40] if m.node.returns is not None else ''}")
+            raw = self._returns_user_object(m)
+            if raw is not None:
+                self.add(c.qual, USER, f".{n} (cached_property) returns {raw[:50]}")
         # a field typed C may hold any subclass of C; a subclass instance has its bases' fields
         for b in c.bases:
             if b in self.prog.classes:
                 self.add(b, c.qual, "(subclass)")
                 self.add(c.qual, b, "(inherited fields)")
+
+    @staticmethod
+    def _returns_user_object(m) -> Optional[str]:
+        """source text of a returned expression that denotes a user object read out of a weak wrapper (x.instance, getattr(x.instance, a))"""
+        def user_expr(e, names) -> bool:
+            if isinstance(e, ast.Name):
+                return e.id in names
+            if isinstance(e, ast.Attribute) and e.attr == "instance":
+                return True
+            if isinstance(e, ast.Call) and isinstance(e.func, ast.Name) and e.func.id == "getattr" and e.args and user_expr(e.args[0], names):
+                return True
+            if isinstance(e, ast.IfExp):
+                return user_expr(e.body, names) or user_expr(e.orelse, names)
+            return False
+
+        names: Set[str] = set()
+        for _ in range(3):
+            for x in walk_local(m.node):
+                if isinstance(x, ast.Assign) and len(x.targets) == 1 and isinstance(x.targets[0], ast.Name):
+                    if user_expr(x.value, names):
+                        names.add(x.targets[0].id)
+                    elif x.targets[0].id in names and not user_expr(x.value, names):
+                        pass
+        # a name re-bound to a wrapped value afterwards (role_taker = ensure_wrapped_instance(role_taker)) is judged by its last binding
+        last: Dict[str, ast.expr] = {}
+        for x in sorted([y for y in walk_local(m.node) if isinstance(y, ast.Assign) and len(y.targets) == 1 and isinstance(y.targets[0], ast.Name)], key=lambda y: (y.lineno, y.col_offset)):
+            last[x.targets[0].id] = x.value
+        for x in walk_local(m.node):
+            if isinstance(x, ast.Return) and x.value is not None:
+                v = x.value
+                if isinstance(v, ast.Name) and v.id in last:
+                    v = last[v.id]
+                if user_expr(v, names - set(last)) or (not isinstance(v, ast.Name) and user_expr(v, set())):
+                    return src(x.value)
+        return None
 
     def path_to_user(self, starts: Set[str]) -> Optional[List[Tuple[str, str]]]:
         prev: Dict[str, Tuple[Optional[str], str]] = {s: (None, "") for s in starts}
